@@ -226,7 +226,7 @@ PROPS = {
         "technique": 'TLC Sentinels invariants + exact replay',
         "title": "empty, one-observation and constant samples follow the documented contract",
         "mc": [MC_W1, MC_C1, MC_SEQ, MC_MERGE],
-        "replay": [gen_q("small", "E0"), gen_mm("hist", depth=("3", "3")), gen_pair("Weighted", "seq", "E0:W0,E5:W2,E10:W0,E10:W1,E0:W3", maxlen=("4", "5")), gen_pair("Covariance", "seq", "E0:E0,E3:E5,E10:E10", maxlen=("4", "5")), gen_seq(ALLM, E05 + ",E10"), gen_hist(ALLM, "E0")],
+        "replay": [GEN_INGEST, gen_q("small", "E0"), gen_mm("hist", depth=("3", "3")), gen_pair("Weighted", "seq", "E0:W0,E5:W2,E10:W0,E10:W1,E0:W3", maxlen=("4", "5")), gen_pair("Covariance", "seq", "E0:E0,E3:E5,E10:E10", maxlen=("4", "5")), gen_seq(ALLM, E05 + ",E10"), gen_hist(ALLM, "E0")],
         "direct": [long_job("Mean,Variance,Skewness,Kurtosis,Moments4,M6,M10", E05 + ",E10", max_n="10000")],
         "rule": "every accessor of every type at n = 0..4 and on every constant sequence in the enumerated set, sentinel class "
                 "or exact value required",
